@@ -69,7 +69,7 @@ func openCustom(n *gomavlib.Node, rec *sim.Recorder, pipes []*sim.Pipe) ([]*goma
 
 func TestC13Stall(t *testing.T) {
 	rec := evid.New(t, "C13", "2..4 channels on custom transports; one transport stops accepting writes (gate) after a warm-up, 70..300 tagged items are written to all channels while it is blocked (more than the 64-item queue), then the gate opens and more items follow; oracles: every Write call returns promptly, every other channel receives every item in order while the victim is blocked and their incoming frame events keep flowing, the victim's stream is an order-preserving duplicate-free subsequence, nothing submitted before or after the blocked interval is missing, at most queue+1 items of the blocked interval are delivered late; non-trivial = more than 64 items submitted during the block; distinct by hash of the parameters")
-	rec.Require("blocked>64", "incoming-during-block", "writes-mixed", "writes-heartbeats", "writes-mixed+heartbeats")
+	rec.Require("blocked>64", "incoming-during-block", "writes-mixed", "writes-heartbeats", "writes-mixed+heartbeats", "stall-longer-than-the-node's-write-timeout")
 	evid.Check(t, rec, evid.N(120, 400), func(t *rapid.T) {
 		drawNodeInit(t)
 		nch := rapid.IntRange(2, 4).Draw(t, "nch")
@@ -79,12 +79,16 @@ func TestC13Stall(t *testing.T) {
 		n3 := rapid.IntRange(1, 40).Draw(t, "after")
 		incoming := rapid.IntRange(0, 20).Draw(t, "incoming")
 		mode := rapid.SampledFrom([]string{"messages", "frames", "mixed", "mixed", "heartbeats", "mixed+heartbeats"}).Draw(t, "mode")
-		desc := fmt.Sprintf("channels=%d victim=%d warmup=%d blocked=%d after=%d incoming=%d writes=%s", nch, victim, n1, n2, n3, incoming, mode)
+		c13WriteTimeout = time.Duration(rapid.SampledFrom([]int{0, 0, 40, 120}).Draw(t, "node_write_timeout_ms")) * time.Millisecond
+		desc := fmt.Sprintf("channels=%d victim=%d warmup=%d blocked=%d after=%d incoming=%d writes=%s nodeWriteTimeout=%v", nch, victim, n1, n2, n3, incoming, mode, c13WriteTimeout)
 		if err := watchdog(scenarioLimit, func() error { return runC13Stall(nch, victim, n1, n2, n3, incoming, mode) }); err != nil {
 			evid.ReplayNote("C13", "TestC13Stall", desc+"\n"+err.Error())
 			t.Fatalf("%s\n%v", desc, err)
 		}
 		cls := []string{"blocked>64", "writes-" + mode}
+		if c13WriteTimeout > 0 {
+			cls = append(cls, "stall-longer-than-the-node's-write-timeout")
+		}
 		if incoming > 0 {
 			cls = append(cls, "incoming-during-block")
 		}
@@ -92,6 +96,9 @@ func TestC13Stall(t *testing.T) {
 		rec.Sample("stall", desc)
 	})
 }
+
+// c13WriteTimeout is the node's write timeout in runC13Stall (0: default); with a short one the stall outlasts it.
+var c13WriteTimeout time.Duration
 
 func runC13Stall(nch, victim, n1, n2, n3, incoming int, mode string) error {
 	pipes := make([]*sim.Pipe, nch)
@@ -101,7 +108,7 @@ func runC13Stall(nch, victim, n1, n2, n3, incoming int, mode string) error {
 		endpoints = append(endpoints, gomavlib.EndpointCustom{ReadWriteCloser: pipes[i]})
 	}
 	n := &gomavlib.Node{Endpoints: endpoints, Dialect: ardupilotmega.Dialect, OutVersion: gomavlib.V2, OutSystemID: nodeSys, HeartbeatDisable: true,
-		StreamRequestEnable: true}
+		StreamRequestEnable: true, WriteTimeout: c13WriteTimeout}
 	if err := initNode(&n); err != nil {
 		return fmt.Errorf("BROKEN: %v", err)
 	}
@@ -249,6 +256,9 @@ func runC13Stall(nch, victim, n1, n2, n3, incoming int, mode string) error {
 		}
 	}
 	// phase 3: unblock, let the backlog drain, then write more with flow control
+	if c13WriteTimeout > 0 {
+		time.Sleep(2*c13WriteTimeout + 20*time.Millisecond) // the stall outlasts the node's write timeout: the backlog is still the backlog
+	}
 	pipes[victim].UnblockWrites()
 	// the backlog has drained exactly when a marker queued behind it is on the wire (first-in first-out); a
 	// marker is dropped like anything else while the queue is still full, so it is repeated until one arrives.
@@ -336,6 +346,14 @@ func runC13Stall(nch, victim, n1, n2, n3, incoming int, mode string) error {
 		}
 		if lateN > 64+1 {
 			return fmt.Errorf("blocked channel delivered %d items of the blocked interval late: backlog is not bounded by the 64-item queue (+1 in flight)", lateN)
+		}
+		// ... and what was within the bound is kept: the first 64 items submitted while the link was blocked had a
+		// place in the backlog (the healthy links took each item before the next was written, so the victim's
+		// writer had all the time to pick up the first one)
+		for c := n1; c < n1+64 && c < n1+n2; c++ {
+			if !have[c] {
+				return fmt.Errorf("blocked channel: item %d, the %d-th submitted while the link was blocked (write timeout of the node: %v, 0 = default), never came out after the link recovered although the backlog had room for it; %d items of the blocked interval were delivered", c, c-n1+1, c13WriteTimeout, lateN)
+			}
 		}
 	}
 	return nil
